@@ -253,6 +253,18 @@ pub fn decision_gens(tier: Tier) -> Vec<(String, Vec<u8>)> {
         assert!(v.len() < B);
         gens.push((format!("offset codes 4..=16 used {per_code} times each, one short-distance copy"), v));
     }
+    // periodic blocks: one period of literals with an exactly chosen histogram, the rest of the block matches. With
+    // ~1100 literals over 200 byte values the table description costs more than Huffman coding saves, so the block
+    // is emitted compressed but with *raw* literals; the next blocks use the same 200 values with eight of them
+    // dominating (Huffman pays, code lengths close to the first block's never-written table)
+    {
+        let multiset = cmp::multiset200;
+        let cyc = |p: Vec<u8>| -> Vec<u8> { p.iter().copied().cycle().take(B).collect() };
+        gens.push(("period of 1112 literals over 200 values, nearly uniform (compressed block, raw literals)".into(), cyc(multiset(&|s| if s < 8 { 7 } else if s < 104 { 6 } else { 5 }, 71))));
+        for (top, rare) in [(400usize, 3usize), (800, 4), (3000, 6)] {
+            gens.push((format!("period over the same 200 values, eight of them {top} times, the others {rare} times"), cyc(multiset(&|s| if s < 8 { top } else { rare }, 72 + top as u64))));
+        }
+    }
     gens
 }
 
